@@ -57,6 +57,31 @@ def run_one(case, variant):
     out = {"episodes": [], "error": None}
     use_env = envdrive.has_proxy(cfg)
     try:
+        if case.get("rvc"):
+            # reset-vs-construction in a pristine process: the FIRST environment constructed in this interpreter is
+            # stepped without reset; a second one is reset(seed) first. Both must behave the same.
+            import copy
+
+            from primaite.session.environment import PrimaiteGymEnv
+
+            acts = [op for op in envdrive.expand_ops(case["ops"], meta) if op[0] != "reset"]
+            cfg["game"]["seed"] = case["seed"]
+            for mode in ("construct", "reset"):
+                entropy.reset(**ent)
+                env = PrimaiteGymEnv(env_config=copy.deepcopy(cfg))
+                cur = {"start": mode, "steps": []}
+                if mode == "reset":
+                    entropy.reset(**ent)
+                    obs, _ = env.reset(seed=case["seed"])
+                else:
+                    obs = env._get_obs()
+                cur["first_obs"] = canon(obs)
+                out["episodes"].append(cur)
+                for op in acts:
+                    a = envdrive.resolve_action(op, env.action_space.n, meta)
+                    obs, reward, term, trunc, info = env.step(a)
+                    cur["steps"].append(step_digest(obs, reward, env.game, simutil.norm_state))
+            return out
         if use_env:
             from primaite.session.environment import PrimaiteGymEnv
 
@@ -65,7 +90,7 @@ def run_one(case, variant):
             if case.get("pre_reset_episode"):
                 cur = {"start": "construct", "steps": []}
                 out["episodes"].append(cur)
-            for op in case["ops"]:
+            for op in envdrive.expand_ops(case["ops"], meta):
                 if op[0] == "reset":
                     obs, _ = env.reset(seed=op[1]) if op[1] is not None else env.reset()
                     cur = {"start": ["reset", op[1]], "first_obs": canon(obs), "steps": []}
